@@ -91,6 +91,14 @@ class TreeEnv:
                 import operator
                 fn = {"ior": operator.ior, "iand": operator.iand, "isub": operator.isub, "ixor": operator.ixor}[n]
                 arg = t if (len(c) > 2 and c[2] == "self") else [K(x) for x in c[1]]     # s ^= s etc.: c[1] = the current keys
+                if arg is not t:
+                    # a third of the operands are one-shot iterators, a third generators (decided by the call itself,
+                    # so that C and Python, and a replay, get the same kind)
+                    sel = (len(c[1]) + sum(abs(x) for x in c[1])) % 3
+                    if sel == 0:
+                        arg = iter(arg)
+                    elif sel == 1:
+                        arg = (x for x in list(arg))
                 r = fn(t, arg)
                 return ("none",) if r is t else ("other", "not-self")
             if n == "isdisjoint":
